@@ -34,6 +34,8 @@ type World struct {
 
 	// Resolver script: name -> successive answers (last one repeats).
 	Hosts map[string][][]net.IP
+	// LookupDelay: virtual time a name lookup takes (nil: none)
+	LookupDelay func(host string) time.Duration
 	// ResolveErr names fail to resolve.
 	lookups map[string]int
 
@@ -208,6 +210,12 @@ func (w *World) Lookup(host string) ([]net.IP, error) {
 	simrt.Yield()
 	if ip := net.ParseIP(host); ip != nil {
 		return []net.IP{ip}, nil
+	}
+	if w.LookupDelay != nil {
+		if d := w.LookupDelay(host); d > 0 {
+			simrt.Fault("slow_name_lookup")
+			simrt.Sleep(d)
+		}
 	}
 	ans, ok := w.Hosts[host]
 	n := w.lookups[host]
